@@ -25,6 +25,12 @@ structure RdRes where
   rest : List Bytes
 deriving DecidableEq, Repr
 
+/-- Apply `step` up to `n` times, stopping as soon as it changes nothing (the goroutine has finished, is
+blocked, or would spin): equal to `n` applications (`repeatStep_eq`), but cheap to execute. -/
+def repeatStep {σ : Type} [DecidableEq σ] (step : σ → σ) : Nat → σ → σ
+  | 0, s => s
+  | n + 1, s => if step s = s then s else repeatStep step n (step s)
+
 /-- One `Read(p)`, `len(p) = room`, over the remaining scripted chunks: a chunk longer than the
 buffer is returned in pieces; after the last chunk the tail; with `fused` the last chunk and the
 tail come back from the same call (`n > 0 && err != nil`). -/
@@ -178,6 +184,13 @@ def stepsFor (reads : List Bytes) : Nat := reads.flatten.length + reads.length +
 passive peer, let B→A run to its end, give A→B one more turn (a passive A has been told by now)". -/
 def tcpComplete (A B : EP) (σ : List TTok) : List TTok :=
   σ ++ [.ax, .bx] ++ List.replicate (stepsFor A.reads) .a ++ List.replicate (stepsFor B.reads) .b ++ [.a]
+
+/-- `tcpRun A B (tcpComplete A B σ)`, computed without walking through the no-op tail of the completion. -/
+def tcpRunFast (A B : EP) (σ : List TTok) : TcpSt :=
+  let s1 := (σ ++ [TTok.ax, TTok.bx]).foldl (tcpStep A B) (tcpInit A B)
+  let s2 := repeatStep (fun s => tcpStep A B s .a) (stepsFor A.reads) s1
+  let s3 := repeatStep (fun s => tcpStep A B s .b) (stepsFor B.reads) s2
+  tcpStep A B s3 .a
 
 /-- What the fake sockets and the caller observe. -/
 structure TcpObs where
@@ -469,6 +482,13 @@ def UdpSt.returned (s : UdpSt) : Bool := s.enc.done && s.dec.done
 the tunnel side runs to its end, the UDP side gets one more turn (to notice that its socket was closed). -/
 def udpComplete (c : UdpCase) (σ : List UTok) : List UTok :=
   σ ++ [.w, .v] ++ List.replicate (c.uevs.length + 1) .u ++ List.replicate (stepsFor c.tchunks) .t ++ [.u] ++ [.sa]
+
+/-- `udpRun v c (udpComplete c σ)`, computed without walking through the no-op tail of the completion. -/
+def udpRunFast (v : Variant) (c : UdpCase) (σ : List UTok) : UdpSt :=
+  let s0 := (σ ++ [UTok.w, UTok.v]).foldl (udpStep v c) (udpInit c)
+  let s1 := repeatStep (fun s => udpStep v c s .u) (c.uevs.length + 1) s0
+  let s2 := repeatStep (fun s => udpStep v c s .t) (stepsFor c.tchunks) s1
+  udpStep v c (udpStep v c s2 .u) .sa
 
 structure UdpObs where
   ret : Bool
